@@ -57,7 +57,7 @@ def run(ctx):
         jobs.append(job)
         return len(jobs) - 1
 
-    n_trials = 150 if ctx.thorough else 45
+    n_trials = 600 if ctx.thorough else 45
     for t in range(n_trials):
         learner = LEARNERS[t % 3]
         pol = [2, 1, 0][(t // 3) % 3]
